@@ -423,7 +423,19 @@ fn const_json<'tcx>(cx: &mut Cx<'tcx>, owner: DefId, c: &ConstOperand<'tcx>) -> 
     let t = c.const_.ty();
     let mut v: Vec<(&'static str, J)> = Vec::new();
     v.push(("ty", cx.ty(t)));
-    let disp = with_no_visible_paths!(with_no_trimmed_paths!(format!("{}", c.const_)));
+    let mut disp = with_no_visible_paths!(with_no_trimmed_paths!(format!("{}", c.const_)));
+    // a named `const X: &str = "..."` used as an operand: print its value like a literal so that rules see through the name
+    if let ty::Ref(_, inner, _) = t.kind() {
+        if inner.is_str() && !disp.contains('"') {
+            let env = TypingEnv::post_analysis(tcx, owner);
+            if let Ok(val) = c.const_.eval(tcx, env, c.span) {
+                if let Some(bytes) = val.try_get_slice_bytes_for_diagnostics(tcx) {
+                    v.push(("cname", J::S(disp.clone())));
+                    disp = format!("const {:?}", String::from_utf8_lossy(bytes));
+                }
+            }
+        }
+    }
     v.push(("s", J::S(disp)));
     if let ty::FnDef(d, _) = t.kind() {
         v.push(("fn", J::S(cx.dp(*d))));
